@@ -8,7 +8,7 @@ from ..excflow import ExcFlow
 from ..loopflow import count_in_path, first_index
 from ..model import AnalysisError, FuncInfo, Program, dotted, own_nodes, unparse
 from ..symex import atoms_of, facts_for, phi_alternatives
-from .common import U, bind_args, const_value, is_self_attr, kwarg, np_call, returns_of, short
+from .common import leaf_stores, U, bind_args, const_value, is_self_attr, kwarg, np_call, returns_of, short
 from .solveloop import is_method_call, solve_loop
 from . import c07, c08
 
@@ -118,7 +118,7 @@ def rejection_paths(prog: Program, rep, cname: str, step: FuncInfo) -> int:
                 raise AnalysisError(f"{step.short}: the acceptance flag `{acc.id}` has no definition before the return")
         else:
             flag_defs = [(si.facts, acc_res, si)]
-        stores = [s for s in ff.order if isinstance(s.stmt, ast.Assign) and any(isinstance(t, ast.Name) and t.id == lam.id for t in s.stmt.targets) and s.index < si.index]
+        stores = leaf_stores(ff, lam.id, si.index)
         rejecting, accepting = [], []
         for s in stores:
             for dfacts, dval, dq in flag_defs:
